@@ -72,13 +72,13 @@ func (t traceService) OpenKVStore(ctx context.Context) corestore.KVStore {
 }
 func (t traceStore) Set(key, value []byte) error {
 	if t.w.tracing {
-		t.w.writes = append(t.w.writes, "set "+hex.EncodeToString(key))
+		t.w.writes = append(t.w.writes, classifyKey(key))
 	}
 	return t.KVStore.Set(key, value)
 }
 func (t traceStore) Delete(key []byte) error {
 	if t.w.tracing {
-		t.w.writes = append(t.w.writes, "del "+hex.EncodeToString(key))
+		t.w.writes = append(t.w.writes, classifyKey(key))
 	}
 	return t.KVStore.Delete(key)
 }
@@ -236,6 +236,42 @@ func (w *World) SetBalance(addr []byte, denom string, amt *big.Int) {
 func (w *World) commit() {
 	id := w.ms.Commit()
 	w.lastHash = id.Hash
+}
+
+// classifyKey maps a raw store key to the canonical name of the entry it addresses
+// (the same names the model's documented write sets use).
+func classifyKey(k []byte) string {
+	ks := string(k)
+	scalar := func(p string) string { return p + p }
+	switch {
+	case ks == string(types.OwnerKey):
+		return "owner"
+	case ks == string(types.PendingOwnerKey):
+		return "pending"
+	case ks == string(types.AttesterManagerKey):
+		return "attmgr"
+	case ks == string(types.PauserKey):
+		return "pauser"
+	case ks == string(types.TokenControllerKey):
+		return "tokctl"
+	case ks == scalar(types.BurningAndMintingPausedKey):
+		return "bm"
+	case ks == scalar(types.SendingAndReceivingMessagesPausedKey):
+		return "sr"
+	case ks == scalar(types.MaxMessageBodySizeKey):
+		return "maxbody"
+	case ks == scalar(types.NextAvailableNonceKey):
+		return "nextnonce"
+	case ks == scalar(types.SignatureThresholdKey):
+		return "threshold"
+	}
+	for _, pc := range []struct{ p, name string }{{types.AttesterKeyPrefix, "attester"}, {types.PerMessageBurnLimitKeyPrefix, "limit"},
+		{types.TokenPairKeyPrefix, "pair"}, {types.UsedNonceKeyPrefix, "nonce"}, {types.RemoteTokenMessengerKeyPrefix, "messenger"}} {
+		if s, ok := hasPrefix(k, pc.p); ok {
+			return fmt.Sprintf("%s k=%x", pc.name, s)
+		}
+	}
+	return fmt.Sprintf("unknown k=%x", k)
 }
 
 // ---------- state dump ----------
